@@ -133,6 +133,22 @@ def step (line : String) : String :=
     | some (some (.res p)), some (some (.res q)), some st =>
       showR (fun l => "[" ++ ",".intercalate (l.map showPeriod) ++ "]") (periodsFromUntil p q st)
     | _, _, _ => "bad-op"
+  | "span>>" :: a :: b :: rest => match endpoint? a, endpoint? b with
+    | some a, some b =>
+      (match Span.rshift a b with
+        | .error e => showErr e
+        | .ok s =>
+          let ops := ((" ".intercalate rest).splitOn "|")|>.map (fun x => x.trimAscii.toString) |>.filter (· ≠ "")
+          " | ".intercalate (observe s :: runSpan s ops))
+    | _, _ => "bad-op"
+  | "span<<" :: a :: b :: rest => match endpoint? a, endpoint? b with
+    | some a, some b =>
+      (match Span.lshift a b with
+        | .error e => showErr e
+        | .ok s =>
+          let ops := ((" ".intercalate rest).splitOn "|")|>.map (fun x => x.trimAscii.toString) |>.filter (· ≠ "")
+          " | ".intercalate (observe s :: runSpan s ops))
+    | _, _ => "bad-op"
   | "span" :: a :: b :: st :: rest => match endpoint? a, endpoint? b, st.toInt? with
     | some a, some b, some st =>
       (match Span.make a b st with
